@@ -7,9 +7,9 @@
 (*     of links: `target.is_dir()`) is a directory;                          *)
 (*   - ok_to_visit_dir: visited_inodes holds the inode of every entry that   *)
 (*     was accepted for a descent (the link's own inode for a link);         *)
-(*   - visit_dir begins with `visited_dirs.insert(canonical_path)` when      *)
-(*     following: an activation for a real directory that has been entered   *)
-(*     before returns at once (no entry loop, no `leave`);                   *)
+(*   - visit_dir begins with `visited_dirs.insert(canonical_path)`: an       *)
+(*     activation for a real directory that has been entered before returns  *)
+(*     at once (no entry loop, no `leave`);                                  *)
 (*   - depth = canonical_depth(dir) saturating_sub canonical_depth(root) + 1 *)
 (*     (a directory behind a link may lie above or beside the root).         *)
 (*                                                                           *)
@@ -60,11 +60,11 @@ SetTop(f) == [stack EXCEPT ![Len(stack)] = f]
 Frame(d, pq) == [dir |-> d, depth |-> SatSub(CanonDepth(d), CanonDepth(root)) + 1, unread |-> ChildrenOf(w, d), pq |-> pq, draining |-> FALSE]
 (* the beginning of visit_dir for the path of node n (the root, a directory entry, or the first hop of a link): *)
 (* refused(d) - the real directory has been entered before; otherwise a new activation on base *)
-Refused(d) == follow /\ d \in vdirs
+Refused(d) == d \in vdirs                      \* (recorded and checked with and without the option: roots may differ in it)
 Activate(base, n, pq) ==
   LET d == Res(n) IN
   /\ stack' = IF Refused(d) THEN base ELSE Append(base, Frame(d, pq))
-  /\ vdirs' = IF follow THEN vdirs \cup {d} ELSE vdirs
+  /\ vdirs' = vdirs \cup {d}
   /\ entered' = IF Refused(d) THEN entered ELSE Append(entered, d)
 
 Start ==
